@@ -81,7 +81,9 @@ func (f *frame) execList(stmts []ast.Stmt) outcome {
 		case *ast.RangeStmt:
 			f.execRange(s)
 		case *ast.TypeSwitchStmt:
-			f.execTypeSwitch(s)
+			if o := f.execTypeSwitch(s); o.kind != oNormal {
+				return o
+			}
 		case *ast.BlockStmt:
 			o := f.execList(s.List)
 			if o.kind != oNormal {
@@ -509,7 +511,7 @@ func (f *frame) execRange(s *ast.RangeStmt) {
 
 // execTypeSwitch: every clause is executed on a copy of the state; variables
 // that differ afterwards become tswitch terms (common prefixes factored).
-func (f *frame) execTypeSwitch(s *ast.TypeSwitchStmt) {
+func (f *frame) execTypeSwitch(s *ast.TypeSwitchStmt) outcome {
 	var subj *T
 	switch a := s.Assign.(type) {
 	case *ast.AssignStmt:
@@ -523,7 +525,27 @@ func (f *frame) execTypeSwitch(s *ast.TypeSwitchStmt) {
 	}
 	if subj == nil {
 		f.E.fail(f.fn, s, "type switch subject not understood")
-		return
+		return outcome{kind: oNormal}
+	}
+	// clauses that return: the returned value is treated as the clause's value of a
+	// synthetic result variable whose starting value is the buffer parameter (for
+	// an emission) or 0 (for a size), and the switch as a whole returns it
+	retObj := types.NewVar(token.NoPos, nil, "$ret", types.Typ[types.Invalid])
+	returned, fellOut := 0, 0
+	if fd, isFD := f.decl.(*ast.FuncDecl); isFD && fd.Type.Results != nil && len(fd.Type.Results.List) == 1 {
+		rt := f.info.TypeOf(fd.Type.Results.List[0].Type)
+		start := tConst(0)
+		if rt != nil && isByteSlice(rt) {
+			for _, po := range paramObjs(f.info, fd) {
+				if po != nil && isByteSlice(po.Type()) {
+					if v, ok := f.env[po]; ok {
+						start = v
+					}
+					break
+				}
+			}
+		}
+		f.env[retObj] = start
 	}
 	base := f.env
 	type clauseRes struct {
@@ -553,8 +575,18 @@ func (f *frame) execTypeSwitch(s *ast.TypeSwitchStmt) {
 		f.brkSwitch = true
 		out := f.execList(cc.Body)
 		f.brkSwitch = savedBrk
-		if out.kind != oNormal && out.kind != oBreak {
+		switch {
+		case out.kind == oReturn && out.ret != nil && out.ret.Op != "tuple":
+			if _, ok := base[retObj]; ok {
+				f.env[retObj] = out.ret
+				returned++
+			} else {
+				f.E.fail(f.fn, cc, "clause of a type switch leaves the function: unsupported")
+			}
+		case out.kind != oNormal && out.kind != oBreak:
 			f.E.fail(f.fn, cc, "clause of a type switch leaves the function: unsupported")
+		default:
+			fellOut++
 		}
 		panics := false
 		ast.Inspect(cc, func(n ast.Node) bool {
@@ -567,6 +599,9 @@ func (f *frame) execTypeSwitch(s *ast.TypeSwitchStmt) {
 		})
 		if panics {
 			name += "!panic"
+			if out.kind == oNormal || out.kind == oBreak {
+				fellOut-- // a clause that panics does not continue
+			}
 		}
 		res = append(res, clauseRes{name, f.env})
 	}
@@ -633,4 +668,15 @@ func (f *frame) execTypeSwitch(s *ast.TypeSwitchStmt) {
 			f.env[obj] = tAdd(old, ts)
 		}
 	}
+	if returned > 0 {
+		if fellOut > 0 {
+			f.E.fail(f.fn, s, "some clauses of a type switch return and others do not: cannot summarise")
+			return outcome{kind: oNormal}
+		}
+		ret := f.env[retObj]
+		delete(f.env, retObj)
+		return outcome{kind: oReturn, ret: ret, env: f.env}
+	}
+	delete(f.env, retObj)
+	return outcome{kind: oNormal}
 }
